@@ -242,8 +242,11 @@ func (c *Ctx) finish(writeEvidence bool) {
 			e["assumptions"] = []string{}
 		}
 		raw, _ := json.MarshalIndent(e, "", " ")
-		os.MkdirAll(filepath.Join(VerifDir, "evidence"), 0o755)
-		if err := os.WriteFile(filepath.Join(VerifDir, "evidence", c.ID+".json"), raw, 0o644); err != nil {
+		// runs against deliberately changed trees (seeded_run.sh, own_mutants.sh, seeded_matrix.py) must
+		// not overwrite the evidence of the unchanged tree: they redirect it
+		evDir := envOr("VERIF_EVIDENCE_DIR", filepath.Join(VerifDir, "evidence"))
+		os.MkdirAll(evDir, 0o755)
+		if err := os.WriteFile(filepath.Join(evDir, c.ID+".json"), raw, 0o644); err != nil {
 			c.HarnessError("evidence: %v", err)
 		}
 	}
